@@ -1,6 +1,7 @@
 (* C04 — Detection events and observables are the declared parities of measurements. *)
 From Coq Require Import List Bool String ZArith.
 Import ListNotations.
+Require GenProofs_FrameMeas.
 Require Import Stab Act Spec SpecProofs GF2 Gen_GateTable Gen_Frame GenProofs_Frame.
 
 (* In the specification a DETECTOR appends, and an OBSERVABLE_INCLUDE accumulates, the XOR form of the named record entries
@@ -24,6 +25,11 @@ Proof. exact parity_form_is_xor_of_values. Qed.
 (* the frame routines that carry measurement flips forward are the table's unsigned action (tie G, shared with C02) *)
 Theorem C04_frame_routines_match_table : frame_all_ok = true.
 Proof. exact frame_generated_routines_match_table. Qed.
+(* FrameSimulator's measurement / reset routines (do_MX .. do_MRZ, do_RX .. do_RZ), executed symbolically from the source on
+   every run: the recorded flip is omega(basis, frame); the frame keeps (measurement) or loses (reset) exactly the component that
+   anticommutes with the basis; frame randomisation goes along the basis and nowhere else *)
+Theorem C04_frame_measure_reset_routines_match : GenProofs_FrameMeas.framemeas_all_ok = true.
+Proof. exact GenProofs_FrameMeas.frame_measure_reset_routines_match_adjgen. Qed.
 Print Assumptions C04_parity_form_is_xor_of_values.
 Print Assumptions C04_frame_routines_match_table.
 
